@@ -262,24 +262,41 @@ FIND_INNER = """invariant_except_break
 # ---- the property-level contracts ------------------------------------------------------------------------------------------------------
 SS = 'self.scopes@'
 P = 'position.raw as int'
-FOUND = ('(r matches Some(d) ==> exists|id: LuaDeclId| self.decls@.contains_key(id) && d == &self.decls@[id] && dname(d) == name@ '
-         '&& visible(self.scopes@, id, position.raw as int, true))')
-LATEST = ('(r matches Some(d) ==> exists|id: LuaDeclId| self.decls@.contains_key(id) && d == &self.decls@[id] && dname(d) == name@ '
-          '&& forall|id2: LuaDeclId| self.decls@.contains_key(id2) && #[trigger] visible(self.scopes@, id2, position.raw as int, true) '
-          '&& dname(&self.decls@[id2]) == name@ ==> pos_of(id2) <= pos_of(id))')
+def _found(lua):
+    return ('(r matches Some(d) ==> exists|id: LuaDeclId| self.decls@.contains_key(id) && d == &self.decls@[id] && dname(d) == name@ '
+            '&& visible(self.scopes@, id, position.raw as int, %s))' % lua)
+
+
+def _latest(lua):
+    return ('(r matches Some(d) ==> exists|id: LuaDeclId| self.decls@.contains_key(id) && d == &self.decls@[id] && dname(d) == name@ '
+            '&& forall|id2: LuaDeclId| self.decls@.contains_key(id2) && #[trigger] visible(self.scopes@, id2, position.raw as int, %s) '
+            '&& dname(&self.decls@[id2]) == name@ ==> pos_of(id2) <= pos_of(id))' % lua)
+
+
+def _none(lua):
+    return ('(r is None ==> forall|id: LuaDeclId| self.decls@.contains_key(id) && #[trigger] visible(self.scopes@, id, position.raw as int, %s) '
+            '==> dname(&self.decls@[id]) != name@)' % lua)
+
+
 FIND_ENSURES = """self.scopes@.len() == 0 ==> r is None,
             // Some(d): d is a declaration of the tree with that name that Lua's scoping makes visible at the position
             (tree_wf(self.scopes@) && !in_header(self.scopes@, position.raw as int)) ==> %(found)s /*@C13.lookup.returns-the-visible-declaration*/,
             // None: no declaration with that name is visible there (the caller falls back to the global)
-            tree_wf(self.scopes@) ==> (r is None ==> forall|id: LuaDeclId| self.decls@.contains_key(id) && #[trigger] visible(self.scopes@, id, position.raw as int, true)
-                ==> dname(&self.decls@[id]) != name@) /*@C13.lookup.none-iff-no-visible-local*/,
+            tree_wf(self.scopes@) ==> %(none)s /*@C13.lookup.none-iff-no-visible-local*/,
             // (i) shadowing: among the visible declarations with that name the one declared latest is returned
             (tree_wf(self.scopes@) && no_dup_named(self, name@)) ==> %(latest)s /*@C13.lookup.latest-visible-declaration-wins*/,
-            // ---- the remaining cases of the two clauses above: FINDINGS on the current tree (see `findings`) ----
+            // what the code does at EVERY position, in its own reading of `visible` (region(.., lua = false): a declaration of a Normal /
+            // ForRange scope is visible everywhere inside that scope behind the name); used by the finding witnesses below
+            tree_wf(self.scopes@) ==> %(found_c)s /*@C13.lookup.code-reading.found*/,
+            tree_wf(self.scopes@) ==> %(none_c)s /*@C13.lookup.code-reading.none*/,
+            (tree_wf(self.scopes@) && no_dup_named(self, name@)) ==> %(latest_c)s /*@C13.lookup.code-reading.latest*/,
+            // ---- the remaining cases of the clauses above: FINDINGS on the current tree (see `findings`) ----
             // (iv) a position in the header of a numeric / generic for (or in a closure inside it): loop variables are not visible there
             (tree_wf(self.scopes@) && in_header(self.scopes@, position.raw as int)) ==> %(found)s /*@C13.lookup.loop-variable-not-visible-in-loop-header*/,
             // (vi) `local a, a = 1, 2`: the later of two names of one statement wins
-            (tree_wf(self.scopes@) && !no_dup_named(self, name@)) ==> %(latest)s /*@C13.lookup.duplicate-names-later-wins*/""" % {'found': FOUND, 'latest': LATEST}
+            (tree_wf(self.scopes@) && !no_dup_named(self, name@)) ==> %(latest)s /*@C13.lookup.duplicate-names-later-wins*/""" % {
+    'found': _found('true'), 'latest': _latest('true'), 'none': _none('true'),
+    'found_c': _found('false'), 'latest_c': _latest('false'), 'none_c': _none('false')}
 FIND_PROOF = """proof {
             let ss = self.scopes@; let l = scope.id.id as int; let p = position.raw as int;
             let t = m_visit(ss, l, p, true);
@@ -299,9 +316,8 @@ FIND_PROOF = """proof {
                     assert(visible(ss, id, p, false));
                     lemma_entry_ord(ss, l, p);
                     if no_dup_named(self, name@) {
-                        assert forall|id2: LuaDeclId| self.decls@.contains_key(id2) && #[trigger] visible(ss, id2, p, true) && dname(&self.decls@[id2]) == name@
+                        assert forall|id2: LuaDeclId| self.decls@.contains_key(id2) && #[trigger] visible(ss, id2, p, false) && dname(&self.decls@[id2]) == name@
                             implies pos_of(id2) <= pos_of(id) by {
-                            assert(visible(ss, id2, p, false));
                             assert(t.contains(ScopeOrDeclId::Decl(id2)));
                             let b = choose|b: int| 0 <= b < t.len() && t[b] == ScopeOrDeclId::Decl(id2);
                             assert(find_hit(self, name@, t[b]));
@@ -318,8 +334,7 @@ FIND_PROOF = """proof {
                     }
                 } else {
                     // not stopped: a visible declaration with that name would be in the trace and would have stopped the visitor
-                    assert forall|id: LuaDeclId| self.decls@.contains_key(id) && #[trigger] visible(ss, id, p, true) implies dname(&self.decls@[id]) != name@ by {
-                        assert(visible(ss, id, p, false));
+                    assert forall|id: LuaDeclId| self.decls@.contains_key(id) && #[trigger] visible(ss, id, p, false) implies dname(&self.decls@[id]) != name@ by {
                         assert(t.contains(ScopeOrDeclId::Decl(id)));
                         let j = choose|j: int| 0 <= j < t.len() && t[j] == ScopeOrDeclId::Decl(id);
                         if dname(&self.decls@[id]) == name@ { assert(find_hit(self, name@, t[j])); }
